@@ -47,8 +47,8 @@ MemGen == MemSmall \cup {<<>>, <<0, 0>>, <<255, 0, 255>>, <<0, 0, 0, 0, 0, 0, 0,
                          <<1, 2, 3, 4, 5, 6, 7, 8, 9, 10, 11, 12, 13, 14, 15, 16, 17, 18, 19, 20>>, <<0, 0, 0, 0, 0, 0, 0, 0>>}
 PreSmall == {<<>>, <<65, 66>>}
 
-TokAll == { <<49>>, <<48>>, <<50, 53>>, <<50, 51, 52, 53>>, <<58>>, <<46>>, <<49, 46>>, <<97, 58, 66, 58, 99, 58>>, <<37>>, <<103>> }
-(*            "1"     "0"     "25"        "2345"            ":"     "."     "1."        "a:B:c:"                 "%"     "g"  *)
+TokAll == { <<49>>, <<48>>, <<54>>, <<50, 53>>, <<50, 51, 52, 53>>, <<58>>, <<46>>, <<49, 46>>, <<97, 58, 66, 58, 99, 58>>, <<100, 58, 69>>, <<37>>, <<103>> }
+(*            "1"     "0"     "6"     "25"        "2345"            ":"     "."     "1."        "a:B:c:"                 "d:E"          "%"     "g"  *)
 TokQuick == TokAll \ {<<48>>}
 
 ASSUME UuidLaws(UPoolGen \cup RPoolAll)
@@ -133,7 +133,7 @@ Poke(t, p, c) == [t EXCEPT ![p] = c]
 Texts(b) == LET t == UuidText(b) IN
     { t, Upper(t), SubSeq(t, 1, 35), Append(t, 0), t \o <<88, 89>>, Poke(t, 1, 103), Poke(t, 20, 103), Poke(t, 31, 0),
       Poke(t, 9, Colon), NoDash(t) \o <<48, 48, 48, 48>>, <<>>, Poke(t, 14, 49), <<32>> \o SubSeq(t, 1, 35), Poke(t, 36, 103) }
-AllTexts == UNION {Texts(b) : b \in UPool}
+AllTexts == IF GenDepth > 0 THEN UNION {Texts(b) : b \in UPool} ELSE Texts(U1) \cup {UuidText(b) : b \in UPool}
 
 MCUSet == InU /\ \E d \in USlots, b \in UPool : USet(d, b) /\ Rec(Op("USET", d, 0, 0, 0, b, <<>>))
 MCUInit == InU /\ \E d \in USlots, v \in RPool : UuidInit(d, uu[d], 0, v) /\ Rec(Op("UINIT", d, 0, 0, 0, <<>>, <<>>))
@@ -195,8 +195,8 @@ RoundTrip ==
          LET t == SubSeq(buf'.data, Len(buf.data) + 1, Len(buf'.data))
              a == last'.a
          IN /\ t = UuidText(uu[a]) /\ buf'.tail[1] = 0
-            /\ \A rc \in {0, -1}, err \in Errs, v \in {uu[a], Zeros(16), U1} :
-                  UuidFromStr(a, t, rc, err, v) => (rc = 0 /\ v = uu[a])]_mcvars
+            /\ \A rc \in {0, -1}, err \in Errs, v \in {uu[a], Zeros(16), U1, U2} :
+                  FromStrAdmits(t, rc, err, v) => (rc = 0 /\ v = uu[a])]_mcvars
 (* a refused to_str changes nothing, an accepted one never touches the bytes already in the buffer *)
 AppendOnly ==
     [][Did("UTOSTR") => /\ SubSeq(buf'.data, 1, Len(buf.data)) = buf.data
